@@ -3,9 +3,14 @@
    (scheme, host, path) carried which basic-auth pair.  Library results (url.Parse,
    urlutil.Equal, index lookups, reference resolution) come with the case as tables. *)
 From Coq Require Import List String Ascii Bool Arith.
-From Helm Require Import Common.Assoc Misc.Creds.
+From Helm Require Import Common.Assoc Misc.Creds Misc.CredsUrl.
 Import ListNotations.
 Local Open Scope string_scope.
+
+(* what url.Parse answered for one string: Scheme, User (Username[:Password]), Host, Path,
+   Hostname(), Port() *)
+Record usplit := mkUS { us_scheme : string; us_user : option string; us_host : string; us_path : string;
+                        us_hostname : string; us_port : string }.
 
 Inductive cpath :=
 | PGetter (ctor : list opt) (gets : list (string * list opt))
@@ -13,7 +18,8 @@ Inductive cpath :=
 | PDownload (copts : list opt) (ref version : string) (with_prov first_ok : bool)
 | PLocate (c : cpo) (name : string) (first_ok : bool)
 | PPull (c : cpo) (name : string) (with_prov first_ok : bool)
-| PManager (dep_repo name version : string) (with_prov first_ok : bool).
+| PManager (dep_repo name version : string) (with_prov first_ok : bool)
+| PUrls (l : list (string * option usplit)).       (* url.Parse on generated strings: differential check of Misc/CredsUrl.v *)
 
 (* one request seen by the capture server (first hop only; redirect follow-ups are not the
    getter's doing and are left to the runtime oracle) *)
@@ -21,6 +27,7 @@ Record obs := mkObs { ob_scheme : string; ob_host : string; ob_path : string; ob
 
 Record case := mkCase {
   k_parse : list (string * url);            (* url.Parse; absent = error *)
+  k_parse_err : list string;                (* candidate strings on which url.Parse failed *)
   k_equal : list (string * string);         (* pairs on which urlutil.Equal is true *)
   k_tab : list (string * string);           (* lookup / find_in / dep_url / index_url tables, keyed *)
   k_repos : list entry;
@@ -55,7 +62,48 @@ Section Run.
     | PLocate o name ok => locate_chart t_parse t_equal t_lookup t_index_url t_find_in o name (k_repos c) ok
     | PPull o name wp ok => pull t_parse t_equal t_lookup t_index_url t_find_in o name (k_repos c) wp ok
     | PManager dr name ver wp ok => manager_dep t_parse t_equal t_lookup t_index_url t_find_in t_dep_url dr name ver (k_repos c) wp ok
+    | PUrls _ => []
     end.
+
+  (* ---- the Gallina splitter against net/url, on every string of the grammar ---- *)
+  Definition opt_str_eqb (a b : option string) : bool :=
+    match a, b with
+    | None, None => true
+    | Some x, Some y => String.eqb x y
+    | _, _ => false
+    end.
+
+  Definition usplit_ok (x : string * option usplit) : bool :=
+    let '(s, r) := x in
+    if in_grammar s then
+      match go_split s, r with
+      | SErr, None => true
+      | SOk sc us h p, Some g =>
+          String.eqb sc (us_scheme g) && opt_str_eqb us (us_user g) && String.eqb h (us_host g)
+          && String.eqb p (us_path g)
+          && String.eqb (hostname h) (us_hostname g) && String.eqb (port_of h) (us_port g)
+      | _, _ => false
+      end
+    else true.
+
+  (* every URL string of the case (the url.Parse table the model runs on) as well *)
+  Definition table_ok (x : string * url) : bool :=
+    let '(s, u) := x in
+    if in_grammar s then
+      match go_split s with
+      | SOk sc us h p =>
+          String.eqb sc (u_scheme u) && String.eqb h (u_host u) && String.eqb p (u_path u)
+          && Bool.eqb (match us with Some _ => true | None => false end) (match u_user u with Some _ => true | None => false end)
+      | SErr => false
+      end
+    else true.
+
+  Definition table_err_ok (s : string) : bool :=
+    if in_grammar s then match go_split s with SErr => true | _ => false end else true.
+
+  Definition splitter_ok : bool :=
+    forallb table_ok (k_parse c) && forallb table_err_ok (k_parse_err c)
+    && match k_path c with PUrls l => forallb usplit_ok l | _ => true end.
 
   (* net/http (Client.send): a request without an Authorization header whose URL carries
      userinfo gets that userinfo as basic auth.  Not Helm's doing, but visible at the server. *)
@@ -118,6 +166,7 @@ Section Run.
     end.
 
   Definition case_ok : bool :=
+    splitter_ok &&
     list_eqb obs_eqb (filter keep (somes (map project model_reqs))) (filter keep (k_obs c)).
 End Run.
 
